@@ -77,6 +77,15 @@ def step (st : St) (toks : List String) : St × String :=
       | some P' => ({ st with P := P' }, "ok")
       | none => (st, "err")
     | _, _ => (st, "bad-op")
+  | ["dryrun", id, v, sv] =>
+    -- a set executed on a cache context that is then discarded (MsgSubmitProposal's dry run, a failed message):
+    -- same verdict, no effect on the stored record
+    match nat? id, nat? v with
+    | some id, some v =>
+      match setProperty Dec.fromStr (guardOk st.records) opaqueSem conds arms id ⟨v, dec sv⟩ st.P with
+      | some _ => (st, "ok")
+      | none => (st, "err")
+    | _, _ => (st, "bad-op")
   | ["get", id] =>
     match nat? id with
     | some id =>
